@@ -391,6 +391,41 @@ class Index:
                         out.add(mangle(n.attr, c.name))
         return out
 
+    def field_const_sort(self, ci, mangled):
+        """'bool' | 'int' | 'str' when every `self.<field> = ...` in the class hierarchy assigns a constant of
+        that one type (augmented assignments excluded); else None.  Used as an inferred field invariant."""
+        cache = self.__dict__.setdefault("_fcs", {})
+        key = (id(ci), mangled)
+        if key in cache:
+            return cache[key]
+        kinds = set()
+        for c in self.mro(ci) + self.subclasses(ci):
+            for fi in list(c.methods.values()) + [p[k] for p in c.properties.values() for k in p]:
+                args = fi.node.args.args
+                if not args:
+                    continue
+                selfname = args[0].arg
+                for n in ast.walk(fi.node):
+                    tgts = []
+                    if isinstance(n, ast.Assign):
+                        tgts, val = n.targets, n.value
+                    elif isinstance(n, ast.AnnAssign) and n.value is not None:
+                        tgts, val = [n.target], n.value
+                    elif isinstance(n, ast.AugAssign):
+                        tgts, val = [n.target], None
+                    for t in tgts:
+                        if isinstance(t, ast.Attribute) and isinstance(t.value, ast.Name) and t.value.id == selfname \
+                                and mangle(t.attr, c.name) == mangled:
+                            if isinstance(val, ast.Constant) and isinstance(val.value, (bool, int, str)):
+                                kinds.add(type(val.value).__name__)
+                            else:
+                                kinds.add("?")
+        res = kinds.pop() if len(kinds) == 1 else None
+        if res == "?":
+            res = None
+        cache[key] = res
+        return res
+
     def subclasses(self, ci):
         out = []
         for m in self.modules.values():
